@@ -39,7 +39,7 @@ def expected_den(d, einsum, comp):
 
 
 def check_records(ctx, recs):
-    reqs, metas = [], []
+    reqs, metas, breqs, bmetas = [], [], [], []
     for r in recs:
         if not r["ok"]:
             ctx.stat(("rejected_" if r["err_kind"] == "ValueError" else "compile_crash_") + str(r["err_kind"])); continue
@@ -55,6 +55,11 @@ def check_records(ctx, recs):
             continue
         reqs.append({"op": "time_expr", "blocks": t["blocks"], "comps": t["comps"], "actual": t["totals"][0]})
         metas.append(r)
+        if t.get("obs") and all(o["config"] is not None for o in t["obs"]):
+            breqs.append({"op": "fusion", "obs": t["obs"], "impl_steps": [t["blocks"]]})
+            bmetas.append(r)
+        else:
+            ctx.stat("no_fusion_obs")
         # (b) every registered pair has exactly one time assignment, and nothing else has one
         registered = sorted((e, c) for e, cs in t["comps"].items() for c in cs)
         assigned = sorted((x["einsum"], x["comp"]) for x in t["comp_times"])
@@ -84,6 +89,16 @@ def check_records(ctx, recs):
             if not ru["ok"]:
                 ctx.violation(dict(kind="time-rollup-executed", yaml=r["yaml"], text=r["text"], rollup=ru, inputs=ex["inputs"],
                                    reason="executing the dump gives metrics[\"time\"] = %r, the independent roll-up is %r" % (ru.get("program"), ru.get("independent"))), True)
+    # (e) the blocks the roll-up sums over are the blocks the fusion model (Props/C13) forms for this cascade
+    for r, a in zip(bmetas, common.lean_batch(breqs)):
+        if "error" in a:
+            raise common.InternalError("lean: " + a["error"])
+        ok = a["model_steps"][-1] == r["time"]["blocks"]
+        ctx.ob(ok); ctx.stat("blocks_vs_fusion_model")
+        if not ok:
+            ctx.violation(dict(kind="time-blocks", yaml=r["yaml"], text=r.get("text"), blocks=r["time"]["blocks"], model_blocks=a["model_steps"][-1], obs=r["time"]["obs"],
+                               reason="metrics[\"time\"] sums over blocks %r; the fusion conditions give %r" % (r["time"]["blocks"], a["model_steps"][-1]),
+                               obligation="Fusion.run (C13) = blocks summed by Collector.__build_time"), True)
     for r, a in zip(metas, common.lean_batch(reqs)):
         if "error" in a:
             raise common.InternalError("lean: " + a["error"])
@@ -99,7 +114,7 @@ def check_records(ctx, recs):
 
 
 def run(ctx):
-    ctx.rule = ("metrics-mode compilations of the accelerator specifications in the corpus and of generated architecture/binding/format specifications (G7); "
+    ctx.rule = ("metrics-mode compilations of the accelerator specifications in the corpus, of generated architecture/binding/format specifications (G7) and of generated fusion histories (C13's generator: 2-5 Einsums, shared/distinct components, loop orders, configurations); "
                 "non-trivial = at least two registered (einsum, component) pairs; distinct = distinct (blocks, registrations, architecture)")
     ctx.trusted = ["Lean kernel; Props/C14", "Time.build = Collector.__build_time is compared per compilation (sampled over specifications)",
                    "instance counts / frequencies / bandwidths are read from the raw YAML by the harness (metricsinfo.arch_components)",
@@ -108,6 +123,7 @@ def run(ctx):
     items = [dict(gen="corpus", count=0, modes=["metrics"], time=True, all_workers=True)]
     if c06.has_g7():
         items.append(dict(gen="g7", count=80 * k, modes=["metrics"], time=True, nexec=1))
+    items.append(dict(gen="g13m", count=120 * k, modes=["metrics"], time=True))
     recs = pool.collect(ctx, items)
     check_records(ctx, recs)
 
